@@ -4,6 +4,7 @@ import (
 	"fmt"
 	"go/token"
 	"go/types"
+	"os"
 	"strings"
 
 	"golang.org/x/tools/go/ssa"
@@ -364,6 +365,29 @@ func (fr *Frame) execStore(addr ssa.Value, val ssa.Value, c *blockCtx, ins ssa.I
 	a := fr.val(addr)
 	fr.safety("nil", c.reach, not(eq(a.S, "Nil")), ins)
 	et := addr.Type().Underlying().(*types.Pointer).Elem()
+	if _, isFn := et.Underlying().(*types.Signature); isFn {
+		// a function-typed variable: remember which closure it holds (a variable assigned two different
+		// closures is not resolved)
+		if g.cellClosure == nil {
+			g.cellClosure = map[string]*closureVal{}
+		}
+		if os.Getenv("GOWP_DEBUG") != "" {
+			fmt.Fprintf(os.Stderr, "store fn cell %s <- %s known=%v\n", a.S, v.S, g.closures[v.S] != nil)
+		}
+		cl, ok := g.closures[v.S]
+		if f, isF := val.(*ssa.Function); isF && !ok {
+			cl, ok = &closureVal{fn: f}, true // a function literal without free variables
+		}
+		if ok {
+			if old, seen := g.cellClosure[a.S]; seen && (old == nil || old.fn != cl.fn) {
+				g.cellClosure[a.S] = nil
+			} else {
+				g.cellClosure[a.S] = cl
+			}
+		} else {
+			g.cellClosure[a.S] = nil
+		}
+	}
 	g.store(c.st, a.S, et, v.S)
 }
 
